@@ -21,12 +21,14 @@ R03.6 AES round typestate in the 12 expanded-key bodies (lib/aesrounds.py, on th
       through those of the k1 schedule, round keys in order, the last round in its *last form, and only finished
       blocks (or bytes assembled from finished blocks: ciphertext stealing) are stored through out.  The 12 raw-key
       bodies expand their keys inline into registers and their frame; their rounds are not judged.
-R03.7 tweak sequence in the 16 sse / avx bodies (raw and expanded key): the tweak is multiplied by alpha in a pair of
-      general registers (shl / adc / conditional xor) and written to the frame in halves; the exponent travels with
-      it (lib/aesrounds.py).  For every length 16..299 the value stored as output block j depends on T*alpha^j; with a
+R03.7 tweak sequence in all 24 bodies (raw and expanded key): in the sse / avx bodies the tweak is multiplied by alpha
+      in a pair of general registers (shl / adc / conditional xor) and written to the frame in halves, in the VAES
+      bodies four tweaks per register are made with per-lane variable left shifts (counts read from the constant
+      table), byte shifts (alpha^8) and qword rotations across lanes; the exponent of alpha travels with the value
+      (lib/aesrounds.py).  For every length 16..299 the value stored as output block j depends on T*alpha^j; with a
       trailing partial block the last full position depends on alpha^m when encrypting and alpha^(m-1) when
       decrypting, and the trailing bytes on the other one (ciphertext stealing swaps the last two tweaks for
-      decryption).  The VAES bodies compute their tweaks with vector shifts and are not judged by this rule.
+      decryption).  Only the last store to each position counts; a value that no tweak symbol reached is not judged.
 R03.3 every XTS body is reached: each of the 8 dispatchers offers an sse, an avx and a vaes candidate and every
       candidate has the 6-argument signature taken from aes/aes_xts.c (anchor / instance floor).
 Positive control: under len in [16,31] the same analysis does reach accesses through both buffers in every body.
@@ -86,7 +88,7 @@ def worker(lib, objname, extra):
         for b in p1.broken:
             out["broken"].append("%s::%s %s" % (objname, name, b))
         out["bodies"] += 1
-        if re.search(r"_(sse|avx)$", name):
+        if re.search(r"_(sse|avx|vaes)$", name):
             nr7 = {128: 10, 256: 14}[int(re.search(r"_(128|256)_", name).group(1))]
             bad7 = None
             n7 = 0
@@ -282,8 +284,8 @@ def run(chk):
     chk.obligations["R03.5"] = [tot["ip_bodies"], tot["ip_ok"]]
     chk.obligations["R03.6"] = [tot["rt_bodies"], tot["rt_ok"]]
     chk.obligations["R03.7"] = [tot["tw_bodies"], tot["tw_ok"]]
-    chk.floor("sse / avx bodies judged for the tweak sequence", tot["tw_bodies"], 16)
-    chk.floor("output stores judged for their tweak", tot["tw_stores"], 40000)
+    chk.floor("bodies judged for the tweak sequence", tot["tw_bodies"], 24)
+    chk.floor("output positions judged for their tweak", tot["tw_stores"], 60000)
     chk.floor("expanded-key bodies judged for the AES round typestate", tot["rt_bodies"], 12)
     chk.floor("XTS output blocks judged for the round typestate", tot["rt_lanes"], 30000)
     chk.extra["round_typestate"] = {"runs": tot["rt_runs"], "output_blocks_judged": tot["rt_lanes"], "output_blocks_not_judged": tot["rt_unl"], "round_steps_in_order": tot["rt_rounds"], "round_steps_not_judged": tot["rt_unk"]}
